@@ -167,6 +167,7 @@ func main() {
 	cfg := solveCfg{outDir: outDir, timeoutS: 10, agree: 1, workers: 16, lemmas: lems}
 	if *tier == "thorough" {
 		cfg.timeoutS, cfg.agree = 60, 2
+		cfg.siteVacuity = true
 	}
 	cfg.known = map[string]bool{}
 	for _, kf := range readKnown(filepath.Join(*verif, "known_findings.json")) {
@@ -188,6 +189,8 @@ func main() {
 	exit := 0
 	var lines []string
 	nObl, nDis, nCov, nCan, nVac, nKnown := 0, 0, 0, 0, 0, 0
+	knownObls := map[string]bool{}
+	vacSites = nil
 	bySolver := map[string]int{}
 	var solverMs int64
 	violations := 0
@@ -220,6 +223,9 @@ func main() {
 			continue
 		}
 		nObl++
+		if o.VacuousSite {
+			vacSites = append(vacSites, o.Name+" "+o.Pos)
+		}
 		switch o.Status {
 		case "proved":
 			nDis++
@@ -238,6 +244,7 @@ func main() {
 			for _, p := range props {
 				if kf := findKnown(known, p, o.Key); kf != nil {
 					nKnown++
+					knownObls[o.Name] = true
 					if !printedKnown[p+o.Key] {
 						printedKnown[p+o.Key] = true
 						lines = append(lines, fmt.Sprintf("KNOWN-FINDING: property=%s %s [%s]", p, kf.WhatFails, o.Key))
@@ -271,7 +278,7 @@ func main() {
 			}
 		}
 	}
-	nObl -= nKnown
+	nObl -= len(knownObls) // obligations listed as known findings are reported, not counted as open
 	deadAck := map[string]bool{}
 	for _, k := range keys {
 		for _, n := range strings.FieldsFunc(e.cs.Funcs[k].Options["deadreturns"], func(r rune) bool { return r == ',' || r == ' ' }) {
@@ -487,6 +494,10 @@ func pruneOut(dir string, keep int) {
 	}
 }
 
+// vacSites: proved obligations whose hypotheses are unsatisfiable (thorough tier probe): dead code or
+// contradictory assumptions at that site; listed in the evidence.
+var vacSites []string
+
 func writeEvidence(verif, prop, tier string, e *Engine, keys []string, reports []funcReport, obls []*Obligation, nObl, nDis, nCov, nCan, nKnown int, bySolver map[string]int, solverS, wall float64, violations int, lines []string) {
 	var fns []string
 	for _, k := range keys {
@@ -584,6 +595,7 @@ func writeEvidence(verif, prop, tier string, e *Engine, keys []string, reports [
 			"samples":                  samples,
 			"not_checked":              notChecked,
 			"report_lines":             lines,
+			"vacuous_sites":            vacSites,
 		},
 		"assumptions": assumptions,
 		"wall_s":      wall,
